@@ -2,14 +2,16 @@
 # Build the framework from files on disk only (offline): extractor, Lean model + proofs + driver, harness.
 set -e
 cd "$(dirname "$0")"
+V="$(pwd)"
+R="${VERIF_REPO:-/repo}"
 export GOFLAGS=-mod=mod GOPROXY=off GOSUMDB=off GOTOOLCHAIN=local
 mkdir -p build out evidence
-(cd extract && go build -o ../build/extract .)
-(cd /repo && /verif/build/extract /repo /verif/lean/Generated)
+(cd extract && go build -o "$V/build/extract" .)
+(cd "$R" && "$V/build/extract" "$R" "$V/lean/Generated")
 (cd lean && lake build)
-python3 - <<'PY'
+python3 - "$V" <<'PY'
 import sys
-sys.path.insert(0, "/verif")
+sys.path.insert(0, sys.argv[1])
 import vlib
 exe, out = vlib.build_harness()
 if exe is None:
